@@ -627,10 +627,11 @@ def extract_contractions(
         for p, l, r in tree.traverse(order=order)
     )
 
-    if tree.preprocessing:
+    if tree.has_preprocessing():
         # inplace single term simplifications
-        # n.b. these are populated lazily when the other information is
-        # computed above, so we do it after
+        # n.b. these are populated lazily when the leaf legs are computed,
+        # which the above does not guarantee (e.g. after slicing an index
+        # that only appeared on a single input) so explicitly touch all leaves
         pre_contractions = (
             (node_from_single(i), None, None, False, eq, None)
             for i, eq in tree.preprocessing.items()
